@@ -381,6 +381,7 @@ LinesPair == {KV(A, IntV(1)), KV(A, IntV(2))}
 
 \* C15: COUNT(DISTINCT) over many distinct values with recurrences (long inputs, simulation), and aggregates over REALs closer than f64::EPSILON
 LinesDistinct == {KV(A, IntV(i)) : i \in 1..10} \cup {KV(B, IntV(3)), KV(A, Null)}
+LinesDistinctWide == {KV(A, IntV(i)) : i \in 1..18} \cup {KV(B, IntV(3)), KV(A, Null)}        \* more than 16 distinct values in one group, with recurrences
 DistinctCountMenu == {Agg(<<ItC("count_distinct", "v", "d"), CountStar>>, <<>>, NoE, NoH, FALSE, NoLimit, "none"),
                       Agg(<<KeyK, ItC("count_distinct", "v", "d")>>, <<K>>, NoE, NoH, FALSE, NoLimit, "none")}
 RealPairs == {<<RealV(1, 4), Q25n>>, <<Q25n, RealV(1, 4)>>, <<RealV(0, 1), NZero>>, <<NZero, RealV(0, 1)>>, <<RealV(1, 2), RealV(3, 2)>>, <<NaN, PInf>>, <<PInf, NaN>>}
